@@ -3,10 +3,10 @@
 Decided by: Coq theorems (Props/C16.v) about the executable model of
 parse_proxy_headers / undquote / strip_brackets (Model/Proxy.v; the
 quoted-string patterns are the terms regenerated from the source on this run):
-exact characterisation of the inputs on which an exception escapes (F19),
-the hop indexing law for every list length and count, pruning and per-kind
-non-interference as two-run theorems, the 400 categories (F20: the empty
-host is not refused).  Tied to the code by K-proxy (real middleware against
+totality (no exception escapes for any header value), the hop indexing law
+for every list length and count, pruning and per-kind non-interference as
+two-run theorems, the 400 categories (including the empty host and the empty
+client address, former findings F20 / F19).  Tied to the code by K-proxy (real middleware against
 the extracted model: whole environ / 400 header / exception class) and
 searched with the executable specification (Spec/ProxySpec.v, validated
 against its extraction on every argument used) directly on the real
@@ -20,12 +20,6 @@ ASSUMPTIONS = [
     "logging calls are not modelled; CPython re applied to QUOTED_STRING_RE / QUOTED_PAIR_RE is represented by the language of the generated term (K-regex of C10, and the undquote stream here)",
     "trusted_proxy_count >= 1 in the hop / pruning theorems (Adjustments accepts any int; 0 and negative counts are modelled with Python slice semantics and covered by K-proxy only)",
 ]
-
-KF_TEXT = {
-    "kf_c16_client_addr_empty": "F19",
-    "kf_c16_empty_host": "F20",
-}
-
 
 def run(ctx):
     ctx.translate({"GenRegex"})
@@ -79,12 +73,22 @@ def run(ctx):
             srv.close()
     ctx.oblige("K-proxy/server: the application as wrapped by create_server agrees with the model's serve (trusted peers)", srv_ok)
 
+    # ---- histories: many requests through the SAME middleware instance (the model is stateless)
+    nh, hm, _tw = P.history_stream(runner, rng, 25 if quick else 400, 12, "trusted")
+    evaluations += nh
+    for env, cfg, r, m, pos in hm[:10]:
+        d = P.describe(env, cfg)
+        d.update({"kind": "model", "entry": "request %d through the same middleware instance" % pos,
+                  "expected": P.res_json(m), "observed": P.res_json(r), "failing_input_found": True,
+                  "note": "only reproduces as a LATER request of one middleware instance (state kept between requests)"})
+        ctx.report("history:" + P.case_key(env, cfg)[:12], "the middleware's answer depends on earlier requests (request %d of an instance): implementation %s ; model %s" % (pos, P.short(r), P.short(m)), d)
+    ctx.oblige("K-proxy/history: every request of a history through one middleware instance equals the stateless model", not hm, "%d requests" % nh)
+
     # ---- search: the specification against the real middleware
     spec = P.Spec()
     spec_ok = True
     n_spec = 0
     verdicts = P.Counter()
-    kf_seen = P.Counter()
     lens = P.Counter()
     counts = P.Counter()
     tph_dist = P.Counter()
@@ -103,7 +107,7 @@ def run(ctx):
         for k in ("HTTP_X_FORWARDED_FOR", "HTTP_X_FORWARDED_HOST", "HTTP_FORWARDED"):
             if k in env:
                 lens[len(env[k].split(","))] += 1
-        v, detail, kf = P.c16_spec_eval(spec, env, cfg, real)
+        v, detail = P.c16_spec_eval(spec, env, cfg, real)
         eligible.append((env, cfg, real))
         if v == "pass":
             verdicts["400:" + detail if detail != "ok" else "accepted"] += 1
@@ -111,16 +115,13 @@ def run(ctx):
                 samples.append({"config": P.cfg_json(cfg), "proxy_headers": {k: env[k] for k in P.PROXY_KEYS if k in env},
                                 "outcome": P.short(real)})
             continue
-        if kf:
-            kf_seen[kf] += 1
-        else:
-            spec_ok = False
-        verdicts["FAIL" if not kf else kf] += 1
+        spec_ok = False
+        verdicts["FAIL"] += 1
         d = P.describe(env, cfg)
         d.update({"kind": "spec", "expected": "C16: " + detail.split(", implementation")[0], "observed": P.short(real),
                   "failing_input_found": True})
-        ctx.report("spec:%s:%s" % (kf or "x", detail[:60]), "C16 violated on the real middleware: " + detail, d, kf_class=kf)
-    ctx.oblige("S-spec: real middleware, trusted peer: never an exception, the 400 categories give 400, the k-th hop from the right is used, forwarded headers pruned to the trusted suffix, untrusted kinds stripped / left alone (outside open known-finding classes)", spec_ok)
+        ctx.report("spec:%s" % detail[:60], "C16 violated on the real middleware: " + detail, d)
+    ctx.oblige("S-spec: real middleware, trusted peer: never an exception, the 400 categories (incl. empty host / empty client address) give 400, the k-th hop from the right is used, forwarded headers pruned to the trusted suffix, untrusted kinds stripped / left alone", spec_ok)
 
     # ---- search: per-kind non-interference and pruning, as two runs of the real middleware
     kinds_ok = True
@@ -194,10 +195,10 @@ def run(ctx):
         "model_vs_real_cases": len(cases),
         "structured_cases": n_struct,
         "server_wrapper_cases": n_srv,
+        "history_requests": nh,
         "real_outcome_distribution": dict(dist),
         "spec_cases": n_spec,
         "spec_verdicts": dict(verdicts),
-        "known_finding_hits": dict(kf_seen),
         "list_length_distribution": {str(k): v for k, v in sorted(lens.items())},
         "trusted_proxy_count_distribution": {str(k): v for k, v in sorted(counts.items())},
         "trusted_kinds_distribution": dict(tph_dist),
